@@ -593,14 +593,30 @@ func checkProperty(c *Ctx, verifDir string, prop *Property, known *KnownFile, se
 			var kept []*Obligation
 			for _, o := range obs {
 				keep := o.verdict == Undecided && strings.HasPrefix(o.Key, "checker-panic")
+				positives, excluded := 0, false
 				for _, pre := range strings.Split(filter, ",") {
-					if strings.HasPrefix(o.Key, pre+":") || o.Key == pre {
-						keep = true
+					// "!clause" leaves that clause to the other properties of the rule
+					neg := strings.HasPrefix(pre, "!")
+					pre = strings.TrimPrefix(pre, "!")
+					if !neg {
+						positives++
 					}
+					hit := strings.HasPrefix(o.Key, pre+":") || o.Key == pre
 					// a trailing * makes the filter a plain key prefix
 					if strings.HasSuffix(pre, "*") && strings.HasPrefix(o.Key, strings.TrimSuffix(pre, "*")) {
+						hit = true
+					}
+					if hit && neg {
+						excluded = true
+					} else if hit {
 						keep = true
 					}
+				}
+				if positives == 0 {
+					keep = true
+				}
+				if excluded {
+					keep = false
 				}
 				if keep {
 					kept = append(kept, o)
